@@ -217,3 +217,10 @@ func PayloadKey(upds []*sdcpb.Update, dels []*sdcpb.Path) string {
 	}
 	return s
 }
+
+// AllSets returns a copy of the recorded Set calls.
+func (r *RecDev) AllSets() []*SetRecord {
+	r.mu.Lock()
+	defer r.mu.Unlock()
+	return append([]*SetRecord{}, r.Sets...)
+}
